@@ -84,6 +84,12 @@ pub fn regex_tokinizer(tokinizer: &mut Tokinizer) {
 
 pub fn language_tokinizer(tokinizer: &mut Tokinizer) {
     let lowercase_data = tokinizer.data.to_lowercase();
+
+    /* A comment is not searched for language based tokens */
+    let lowercase_data = match lowercase_data.find('#') {
+        Some(position) => lowercase_data[..position].to_string(),
+        None => lowercase_data
+    };
     for func in LANGUAGE_BASED_TOKEN_PARSER.iter() {
         func(tokinizer.config, tokinizer, &lowercase_data);
     }
